@@ -66,4 +66,8 @@ theorem sparse_no_penalty_is_eof_partial (Vk : Matrix (Fin p) (Fin k) 𝕜) (D2 
 /-- source obligation for `pca_all_modes_is_no_pca` on complex data: the PCA maps are `V` in and `Vᴴ` out -/
 theorem src_pca_maps_adjoint : Gen.pcaTransformUsesV = true ∧ Gen.pcaInverseDataUsesConjTranspose = true := by decide
 
+/-- source obligation: patterns leave PC space through `V` itself (`V · q`), the exact inverse of entering through `Vᴴ` -/
+theorem src_pca_component_maps :
+    Gen.pcaInverseCompsBody.contains "V = self.V" = true ∧ Gen.pcaTransformCompsBody.contains "Tinv = self.V.conj().T" = true := by decide
+
 end C10
